@@ -382,9 +382,22 @@ def HvAz.meanCurvePeakByAz (d : Dist) (s : HvAz α) : Except String (List (α ×
 def contour2dLines (d : Dist) (peaks : Bool) (s : HvAz α) :
     Except String ((List α × List (List (Option α))) × List (Line α)) := do
   let mesh := azMesh d s
+  -- colour-bar ticks: `np.max(mesh_amp)` is NaN when an azimuth has no accepted window (its mean curve is
+  -- NaN); every comparison is then false and `np.arange(0, nan, 5)` raises ValueError
+  if mesh.2.any (fun row => row.any Option.isNone) then throw "nanticks"
   if peaks then do
     let pk ← s.meanCurvePeakByAz d
     pure (mesh, [{ style := .peakMeanByAzimuth, x := pk.map (fun p => some p.1), y := s.azimuths.map some }])
+  else pure (mesh, [])
+
+/-- `plot_azimuthal_contour_3d`: the mesh handed to `plot_surface` (NaN rows are passed on) and the per-azimuth
+peaks of the scatter artist, the first one repeated at 180 degrees -/
+def contour3dData (d : Dist) (peaks : Bool) (s : HvAz α) :
+    Except String ((List α × List (List (Option α))) × List (α × α)) := do
+  let mesh := azMesh d s
+  if peaks then do
+    let pk ← s.meanCurvePeakByAz d
+    pure (mesh, pk ++ pk.take 1)
   else pure (mesh, [])
 
 /-- the keyword options of `plot_azimuthal_summary` on top of the panel options -/
@@ -406,6 +419,7 @@ def azSummaryPanelLines (o : AzSummaryOpts) (s : HvAz α) : Except String (List 
 optionally, the per-azimuth peaks), then the panel -/
 def plotAzimuthalSummary (o : AzSummaryOpts) (s : HvAz α) : HvAz α × Except String (List (Line α)) :=
   (s, do
+    let _ ← contour3dData o.panel.dMc o.peakByAzimuth s
     let _ ← contour2dLines o.panel.dMc o.peakByAzimuth s
     azSummaryPanelLines o s)
 
